@@ -318,7 +318,7 @@ func (m *Model) extractPratt() *prattModel {
 	for _, b := range pe.Blocks {
 		for _, in := range b.Instrs {
 			c, ok := in.(*ssa.Call)
-			if !ok || c.Call.StaticCallee() == nil || c.Call.StaticCallee().Name() != "peekTokenIs" {
+			if !ok || c.Call.StaticCallee() == nil || canonFnName(c.Call.StaticCallee()) != "peekTokenIs" {
 				continue
 			}
 			for _, e := range variadicElems(c.Call.Args[len(c.Call.Args)-1]) {
@@ -450,7 +450,7 @@ func (m *Model) analyseHandler(pm *prattModel, h *handler, _ string) {
 			if sc == nil || !m.InModule(sc) {
 				continue
 			}
-			switch sc.Name() {
+			switch canonFnName(sc) {
 			case "nextToken":
 				h.steps = append(h.steps, parseStep{op: "next"})
 				consumed = true
@@ -542,7 +542,7 @@ func (m *Model) consumedBefore(in ssa.Instruction) bool {
 			if !ok || c.Call.StaticCallee() == nil {
 				continue
 			}
-			n := c.Call.StaticCallee().Name()
+			n := canonFnName(c.Call.StaticCallee())
 			if (n == "nextToken" || n == "expectPeek") && ctx.instrDominates(x, in) && x != in {
 				return true
 			}
@@ -561,7 +561,7 @@ func (m *Model) isOwnPrecRead(v ssa.Value, d int) bool {
 		return m.isOwnPrecRead(x.Tuple, d+1)
 	case *ssa.Lookup:
 		g, ok := derefGlobal(x.X)
-		if !ok || g.Name() != "precedences" {
+		if !ok || canonGlobalName(g) != "precedences" {
 			return false
 		}
 		_, p, ok := pathOf(x.Index)
@@ -1265,7 +1265,7 @@ func (m *Model) parserInterp(cur, peek int64, precLit map[int64]int64, registere
 		}
 		k, _ := constant.Int64Val(kc)
 		if ld, isLd := l.X.(*ssa.UnOp); isLd && ld.Op == token.MUL {
-			if g, isG := ld.X.(*ssa.Global); isG && g.Name() == "precedences" && shortPkg(g.Pkg.Pkg.Path()) == "parser" && precLit != nil {
+			if g, isG := ld.X.(*ssa.Global); isG && canonGlobalName(g) == "precedences" && shortPkg(g.Pkg.Pkg.Path()) == "parser" && precLit != nil {
 				v, present := precLit[k]
 				return constant.MakeInt64(v), present, true
 			}
